@@ -49,23 +49,25 @@ theorem usable_iff_in_common_band (bands : List Band) (fMin fMax grid : Int) (ce
   · refine ⟨⟨fun hh => ?_, fun hh => absurd hh b⟩, Or.inr a⟩
     rw [a] at hh; cases hh
 
-/-- for band edges on the default 6.25 GHz grid "index inside the band" is "centre frequency inside the band" -/
-theorem inBands_iff_frequency (bands : List Band) (x : Int)
-    (hgrid : ∀ b ∈ bands, (∃ i, b.1 = nToFrequency i) ∧ ∃ j, b.2 = nToFrequency j) :
+/-- "index inside a band" is "centre frequency of the slot inside the band", for every band edge, on or off the grid
+    (this is what the inward rounding of d0f17fb2 achieves; with truncation toward zero it failed for off-grid edges) -/
+theorem inBands_iff_frequency (bands : List Band) (x : Int) :
     InBands defaultGrid bands x ↔ ∃ b ∈ bands, b.1 ≤ nToFrequency x ∧ nToFrequency x ≤ b.2 := by
+  have lo : ∀ f : Int, bandLo f defaultGrid ≤ x ↔ f ≤ nToFrequency x := by
+    intro f
+    unfold bandLo ceilDiv nToFrequency anchorHz defaultGrid
+    rw [Int.fdiv_eq_ediv_of_nonneg _ (by decide)]
+    omega
+  have hi : ∀ f : Int, x ≤ bandHi f defaultGrid ↔ nToFrequency x ≤ f := by
+    intro f
+    unfold bandHi floorDiv nToFrequency anchorHz defaultGrid
+    rw [Int.fdiv_eq_ediv_of_nonneg _ (by decide)]
+    omega
   constructor
   · rintro ⟨b, hb, h1, h2⟩
-    obtain ⟨⟨i, hi⟩, ⟨j, hj⟩⟩ := hgrid b hb
-    rw [hi, frequencyToN_nToFrequency] at h1
-    rw [hj, frequencyToN_nToFrequency] at h2
-    refine ⟨b, hb, ?_, ?_⟩
-    · rw [hi]; unfold nToFrequency defaultGrid; omega
-    · rw [hj]; unfold nToFrequency defaultGrid; omega
+    exact ⟨b, hb, (lo b.1).1 h1, (hi b.2).1 h2⟩
   · rintro ⟨b, hb, h1, h2⟩
-    obtain ⟨⟨i, hi⟩, ⟨j, hj⟩⟩ := hgrid b hb
-    refine ⟨b, hb, ?_, ?_⟩
-    · rw [hi, frequencyToN_nToFrequency]; rw [hi] at h1; unfold nToFrequency defaultGrid at h1; omega
-    · rw [hj, frequencyToN_nToFrequency]; rw [hj] at h2; unfold nToFrequency defaultGrid at h2; omega
+    exact ⟨b, hb, (lo b.1).2 h1, (hi b.2).2 h2⟩
 
 theorem nodup_intRange (a b : Int) : (intRange a b).Nodup := by
   unfold intRange
